@@ -100,20 +100,23 @@ def srvHandle (toks : List String) : String :=
       let mac ← (if mac = "err" then some none else (lowerHex? mac).map some)
       let ntpOk ← (if ntp = "ok" then some true else if ntp = "bad" then some false else none)
       -- the same well-formedness conditions the harness imposes
-      if mode ≠ "srv" ∧ mode ≠ "srvkeys" ∧ mode ≠ "disp" then none
+      if mode ≠ "srv" ∧ mode ≠ "srvkeys" ∧ mode ≠ "srvgrpc" ∧ mode ≠ "disp" then none
       if sock ≠ "svc" ∧ sock ≠ "eh" then none
       if sa.length ≠ 4 * (1 + st % 4) ∨ da.length ≠ 4 * (1 + dt % 4) then none
       if e2e = 0 ∧ (auth.isSome ∨ pre = 1) then none
       if mode = "disp" ∧ (sock ≠ "eh" ∨ mock ≠ 0) then none
-      if mode = "srvkeys" ∧ mock ≠ 0 then none
+      if (mode = "srvkeys" ∨ mode = "srvgrpc") ∧ mock ≠ 0 then none
       if (match mac with | some m => m.length != 0 && m.length != 16 | none => false) then none
       -- the child's configuration is fixed
       if svc ≠ 10123 ∨ dscp ≠ 46 then none
       let cfg : Cfg :=
         if mode = "srv" then
           serverCfg svc (if sock = "eh" then EndhostPort else svc) dscp (mock = 1) true false
-        else if mode = "srvkeys" then
-          -- real-derivation keys from a (fake) daemon: connector present, fetch succeeds
+        else if mode = "srvkeys" ∨ mode = "srvgrpc" then
+          -- real-derivation keys from a (fake) daemon: connector present, fetch succeeds.
+          -- srvgrpc: the production connector on a stand-in gRPC daemon whose keys rotate with the
+          -- wall clock; the MAC oracle is the MAC under the key of the epoch the packet is sent
+          -- in (the fetch chain is transparent: C13_fetcher_transparent, C13_listener_key_valid)
           serverCfg svc (if sock = "eh" then EndhostPort else svc) dscp false false true
         else dispatcherCfg
       let p : Pkt :=
